@@ -13,7 +13,8 @@
      Set     setInFlightConnection (write lock), then the dial starts: the thread blocks in Dial
      Dial    the TCP dial completes, handshake + login start are sent: the thread blocks again
      Backend the fake backend acts (accept / refuse / kick in login / kick after login /
-             stall / hang until the request context expires); the thread wakes up     [gate sw.reset]
+             stall / hang until the request context expires / stay silent in login or before
+             JoinGame until the caller cancels the context); the thread wakes up    [gate sw.reset]
      Reset   deferred resetIfInFlightIs                                               [gate sw.failed]
      Clear   connect(): resetInFlightConnection() after a non-successful result; with the
              indication API a failure runs handleKickEvent, which clears the slot as well
